@@ -1,6 +1,7 @@
 package main
 
 import (
+	"go/token"
 	"strings"
 
 	"golang.org/x/tools/go/ssa"
@@ -110,6 +111,59 @@ func ruleErrLatch(c *Check, p *Program, rule string) {
 				}
 			}
 		})
+	}
+	if n == 0 {
+		// the latch is handed by address to a helper that performs the guarded store: *p = err under *p == nil
+		for _, ci := range callsIn(fn) {
+			g := staticCallee(ci)
+			if g == nil || !inModule(g) || len(g.Blocks) == 0 {
+				continue
+			}
+			for i, a := range ci.Common().Args {
+				if lastField(a) != "Blocks.err" || i >= len(g.Params) {
+					continue
+				}
+				prm := g.Params[i+len(g.Params)-len(ci.Common().Args)]
+				allInstrs(g, func(in ssa.Instruction) {
+					st, isSt := in.(*ssa.Store)
+					if !isSt || st.Addr != ssa.Value(prm) {
+						return
+					}
+					n++
+					for _, at := range atomsOfBlock(in.Block()) {
+						if ld, isL := at.V.(*ssa.UnOp); at.Kind == "errnil" && at.Val && isL && ld.Op == token.MUL && ld.X == ssa.Value(prm) {
+							ok = true
+						}
+					}
+				})
+			}
+		}
+	}
+	if n == 0 {
+		// closeR only forwards to a function that receives the latch by address (findFn has followed the forward)
+		for i, prm := range fn.Params {
+			passesLatch := false
+			for _, cs := range callSitesOf(fn) {
+				if a := cs.Common().Args; i < len(a) && lastField(a[i]) == "Blocks.err" {
+					passesLatch = true
+				}
+			}
+			if !passesLatch {
+				continue
+			}
+			allInstrs(fn, func(in ssa.Instruction) {
+				st, isSt := in.(*ssa.Store)
+				if !isSt || st.Addr != ssa.Value(prm) {
+					return
+				}
+				n++
+				for _, at := range atomsOfBlock(in.Block()) {
+					if ld, isL := at.V.(*ssa.UnOp); at.Kind == "errnil" && at.Val && isL && ld.Op == token.MUL && ld.X == ssa.Value(prm) {
+						ok = true
+					}
+				}
+			})
+		}
 	}
 	c.Cond(ok && n == 1, rule, "Blocks.closeR#first-error-wins", p.Pos(fn.Pos()), "the concurrent error latch is written only while it is still nil", "single store guarded by b.err == nil", "the latch store is not guarded by b.err == nil (a later error or io.EOF could replace the first error)")
 }
